@@ -161,7 +161,15 @@ pub(crate) mod prelude {
             self.current
         }
         pub(crate) fn verif_enter(&mut self) -> bool {
-            self.enter().is_ok()
+            match self.enter() {
+                Ok(()) => true,
+                Err(e) => {
+                    // the verifier need not walk the error's drop glue
+                    #[allow(clippy::mem_forget)]
+                    std::mem::forget(e);
+                    false
+                }
+            }
         }
         pub(crate) fn verif_exit(&mut self) {
             self.exit();
